@@ -849,4 +849,21 @@ Section NoDeadlock.
     - right. destruct (creqs (fst st)) as [|[h c] rest] eqn:Ec; [contradiction Hc; reflexivity|].
       exists h, c. split; [|apply (Q2 h c)]; cbn [aget]; rewrite beq_refl; reflexivity.
   Qed.
+
+  (* deps = number of pending children (node requests whose parent it is + occurrences in
+     the parents of code requests), after any history *)
+  Theorem deps_exact ops :
+    closedA H T root cb0 db0 ->
+    let s0 := unsum (new_sync H false db0 root cb0) in
+    run_wf5 s0 ops ->
+    forall p r, aget p (nreqs (run H s0 ops)) = Some r ->
+      nr_deps r = Z.of_nat (cntn p (nreqs (run H s0 ops)) + cntc p (creqs (run H s0 ops))).
+  Proof.
+    intros C0 s0 W p r E.
+    assert (IL : InvL (run H s0 ops)).
+    { apply InvL_run; [exact W|].
+      split; [apply (InvA_new_sync H T CD root cb0 db0 Hkind Hnz Hlen agree0); exact C0|apply live_new_sync]. }
+    destruct IL as [(_ & SL & _) L].
+    pose proof (SL p r E) as A. pose proof (lv_ub _ _ _ L p r E) as B. unfold zero in *. lia.
+  Qed.
 End NoDeadlock.
